@@ -9,7 +9,10 @@
  frame kinds; the session stream (start frame at seq 0, exactly one end frame, last, contiguous
  seqs); run_ended after the run's session_ended in file order.  Further scenarios: tool and
  checkpoint envelopes, no provider, dead endpoint, context compilation failure, two runs in
- parallel on one thread, compaction jobs whose body fails (job_ended at most once)."""
+ parallel on one thread, compaction jobs whose body fails (job_ended at most once).
+ Generated histories (random operation sequences over the alphabet of ./check C03) are run for real
+ and the whole log, in file order, is validated by TLC against LifecycleTrace.tla (message, run,
+ session and job state machines; no prediction needed); corrupted copies must be rejected."""
 import json
 
 from .. import tlc, runloop
@@ -76,6 +79,100 @@ def lifecycle_problems(res):
         if n > 1:
             out.append(f"job ended {n} times")
     return out
+
+
+# ------------------------------------------------------------------ arbitrary histories against the life-cycle state machines
+def lifecycle_events(cid, order):
+    """the log of one history, in file order, as LifecycleTrace events."""
+    ev = [{"ev": "reset", "case": cid}]
+    T = {"continuity_run_spawned": "rs", KIND["selection_decided"]: "sel", KIND["context_compiled"]: "comp", KIND["side_effects"]: "fx",
+         "continuity_run_ended": "re", "continuity_job_spawned": "js", "continuity_job_ended": "je"}
+    for o in order:
+        t, k = o["type"], o.get("kind")
+        if k == "session" or (k is None and t in ("session_started", "session_ended")):
+            ev.append({"ev": {"session_started": "ss", "session_ended": "se"}.get(t, "sf"), "s": o["sid"], "seq": o["seq"]})
+        elif t == "continuity_message_appended":
+            ev.append({"ev": "msg", "m": o["m"]})
+        elif t in T and (T[t] in ("js", "je") or o.get("r")):
+            e = {"ev": T[t]}
+            if T[t] in ("js", "je"):
+                e["j"] = o.get("j") or ""
+            else:
+                e["r"] = o["r"]
+                if T[t] == "rs":
+                    e["m"] = o.get("m") or ""
+            ev.append(e)
+        elif t == KIND["cursor_updated"] and o.get("r"):
+            ev.append({"ev": "cur", "r": o["r"]})
+        elif k == "continuity" and o.get("r"):
+            ev.append({"ev": "lk", "r": o["r"]})
+        else:
+            ev.append({"ev": "other"})
+    ev.append({"ev": "end"})
+    return ev
+
+
+def history_family(v, wd, n, seed, replay_case=None):
+    """generated histories (the alphabet of ./check C03) through the real router; the whole log in file order is validated by TLC
+    against LifecycleTrace.  Three corrupted copies of a recorded history must be rejected (the validation is not vacuous)."""
+    from . import c03
+    import os
+    from ..common import write_ndjson
+    sc = [replay_case] if replay_case else c03.generated_scenarios(n, seed + 1000)
+    for c in sc:
+        c["id"] = c["id"].replace("gen-", "hist-")
+    results = run_harness("fidelity", [{k: x for k, x in c.items() if not k.startswith("_")} for c in sc], wd, "life", shards=min(len(sc), 14), timeout=1800)
+    by_id = {c["id"]: c for c in sc}
+    events, lines_of = [], {}
+    for res in results:
+        ev = lifecycle_events(res["id"], res["order"])
+        lines_of[res["id"]] = (len(events), ev)
+        events += ev
+        v.add_eval({"history": res["id"], "frames": len(res["order"])}, True)
+    # corrupted copies
+    expected_flags = {}
+    donor = next((ev for _, ev in lines_of.values() if any(e["ev"] == "re" for e in ev) and any(e["ev"] == "comp" for e in ev)), None)
+    if donor and not replay_case:
+        i_re = next(i for i, e in enumerate(donor) if e["ev"] == "re")
+        i_se = max(i for i, e in enumerate(donor[:i_re]) if e["ev"] == "se" and e["s"] == donor[i_re]["r"])
+        i_comp = next(i for i, e in enumerate(donor) if e["ev"] == "comp")
+        muts = {"mut-two-run-ended": donor[:i_re + 1] + [donor[i_re]] + donor[i_re + 1:],
+                "mut-run-ended-before-session-ended": donor[:i_se] + donor[i_se + 1:i_re + 1] + [donor[i_se]] + donor[i_re + 1:],
+                "mut-compiled-before-selection": donor[:i_comp - 1] + [donor[i_comp], donor[i_comp - 1]] + donor[i_comp + 1:] if donor[i_comp - 1]["ev"] == "sel" else None}
+        want = {"mut-two-run-ended": "RunEndedOnceAfterSpawn", "mut-run-ended-before-session-ended": "RunEndedFollowsItsSessionEnded", "mut-compiled-before-selection": "CompiledOnceAfterSelection"}
+        for mid, ev in muts.items():
+            if ev:
+                events += [dict(ev[0], case=mid)] + ev[1:]
+                expected_flags[mid] = want[mid]
+    p = os.path.join(wd, "lifecycle.ndjson")
+    write_ndjson(p, events)
+    r, rej = tlc.validate_trace("LifecycleTrace", "LifecycleTrace.cfg", p, timeout=900, heap="4g")
+    v.add_tlc(r, f"LifecycleTrace: {len(results)} generated histories ({len(events)} log lines in file order) against the message / run / session / job state machines")
+    if rej or r.errors or r.violated or r.timed_out:
+        log(r.out[-3000:])
+        die_tool(f"LifecycleTrace failed: {rej or r.errors or r.violated}")
+    bad = []
+    for tag, val in r.prints:
+        if tag == "BAD":
+            bad = val
+    flagged = {}
+    for cid, line, name in bad:
+        flagged.setdefault(cid, []).append((line, name))
+    for mid, name in expected_flags.items():
+        if name not in [n_ for _, n_ in flagged.get(mid, [])]:
+            die_tool(f"LifecycleTrace accepted the corrupted history {mid} (expected {name}): the validation is vacuous")
+    v.cov["lifecycle_corrupted_histories_rejected"] = len(expected_flags)
+    for cid, fl in flagged.items():
+        if cid.startswith("mut-"):
+            continue
+        start, ev = lines_of[cid]
+        for line, name in sorted(fl)[:3]:
+            e = ev[line - 1 - start] if 0 <= line - 1 - start < len(ev) else {}
+            c = by_id[cid]
+            v.violation(f"history {cid} (steps {c.get('_names')}): {name} is false at log line {line - 1 - start} ({e})",
+                        {"engine": "history", "guard": name, "case": {k: x for k, x in c.items() if not k.startswith("_")}})
+    v.cov["generated_histories"] = len(results)
+    return len(results)
 
 
 def run(tier, seed):
@@ -165,10 +262,12 @@ def run(tier, seed):
             v.sample({"cfg": gc["cfg"], "script": [(r["outcome"], r["rid"], [(x["cid"], x["tool"]) for x in r["calls"]]) for r in gc["script"]],
                       "predicted_thread": gc["run"]["thread"], "observed_thread": [f["type"] for f in res["thread_frames"]][1:],
                       "session_end_reason": next((f["reason"] for f in res["session_frames"][-1] if f["type"] == "session_ended"), None)})
-    v.cov["traces_validated_against_impl"] = len(results)
+    nh = history_family(v, wd, 300 if thorough else 24, seed)
+    v.cov["traces_validated_against_impl"] = len(results) + nh
     v.assumptions += ["provider behaviours are the six response outcomes x call items of the alphabet; byte-level variety is C15's"]
     return v.finish(
-        rule="cases = one provider script per distinct predicted run of RunLoop.tla + 13 scenarios (envelopes, no provider, dead endpoint, compile failure, parallel runs, failing / succeeding compaction jobs); "
+        rule="cases = one provider script per distinct predicted run of RunLoop.tla + 14 scenarios (envelopes, no provider, dead endpoint, compile failure, parallel runs, failing / succeeding compaction jobs, operations after a run) "
+             "+ generated histories (random operation sequences; whole log in file order validated against LifecycleTrace); "
              "non-trivial = the script has a tool call or does not end with a clean [DONE]; distinct by (configuration, script) / scenario id",
         exhaustive=True)
 
@@ -178,6 +277,15 @@ def replay(path, seed):
         rep = json.load(f)
     case = rep["case"]
     wd = workdir(PROP + "-replay")
+    if case.get("engine") == "history":
+        v = Verdict(PROP, "replay", seed)
+        history_family(v, wd, 1, seed, replay_case=dict(case["case"]))
+        for what, _ in v.violations:
+            print(what[:400])
+        if v.violations:
+            print(f"VIOLATION property={PROP} replay={path}")
+            return 1
+        return 0
     res = run_harness("runs", [case["case"]], wd, "replay")[0]
     problems = []
     for sf in res["session_frames"]:
